@@ -75,13 +75,16 @@ def pixel_data(w: World, n: int) -> SVar:
     return w.it.track(da)
 
 
-def experiment(w: World, k: int, direct=True) -> SObj:
+def experiment(w: World, k: int, direct=True, transposed=False) -> SObj:
     if direct:
         efix = w.sv(f'efix{k}', 'ueV')
         en = w.sv(f'en{k}', 'ueV', (3,), dims=['energy_transfer'])
     else:  # indirect geometry: one fixed energy per detector, energy transfer per detector
         efix = w.sv(f'efix{k}', 'ueV', (2,), dims=['detector'])
-        en = w.sv(f'en{k}', 'ueV', (2, 3), dims=['detector', 'energy_transfer'])
+        if transposed:  # the same data supplied with the dims the other way round
+            en = w.sv(f'en{k}', 'ueV', (3, 2), dims=['energy_transfer', 'detector'])
+        else:
+            en = w.sv(f'en{k}', 'ueV', (2, 3), dims=['detector', 'energy_transfer'])
     return SObj(w.cls(MODELS, 'SqwIXExperiment'), {
         'run_id': k, 'efix': efix, 'emode': w.enum(MODELS, 'EnergyMode', 'direct' if direct else 'indirect'),
         'en': en, 'psi': w.sv(f'psi{k}', 'deg'),
@@ -132,7 +135,7 @@ class Written:
         self.n_runs = 0
 
 
-def build(repo: Repo, calls=('P', 'I', 'S', 'D', 'T'), byteorder='little', n_pixels=5, chunk=2, n_runs=1, target='memory', title='a title', indirect=False) -> Written:
+def build(repo: Repo, calls=('P', 'I', 'S', 'D', 'T'), byteorder='little', n_pixels=5, chunk=2, n_runs=1, target='memory', title='a title', indirect=False, transposed=False) -> Written:
     w = World(repo)
     out = Written()
     out.world, out.calls, out.byteorder, out.n_pixels, out.n_runs = w, tuple(calls), byteorder, n_pixels, n_runs
@@ -145,7 +148,7 @@ def build(repo: Repo, calls=('P', 'I', 'S', 'D', 'T'), byteorder='little', n_pix
     for c in calls:
         if c == 'P':
             sup['pixels'] = pixel_data(w, n_pixels)
-            sup['experiments'] = [experiment(w, k, direct=not indirect) for k in range(n_runs)]
+            sup['experiments'] = [experiment(w, k, direct=not indirect, transposed=transposed) for k in range(n_runs)]
             kind, b2 = w.call(repo.func(BUILD, 'SqwBuilder.add_pixel_data'), [sup['pixels']], {'experiments': sup['experiments']}, bound=b)
         elif c == 'I':
             sup['instrument'] = instrument(w)
